@@ -287,7 +287,7 @@ def _motion(ctx, prog):
         dist_t = [t_ for t_ in tests if mention(t_, thr_d)]
         ang_t = [t_ for t_ in tests if mention(t_, thr_a_raw)]
         states = {}
-        for nm, val in r.env.items():
+        for nm, val in r.env_all.items():
             if val.op == "loopout" and val.args[1] == lid and nm != name:
                 states[nm] = val
 
